@@ -1,4 +1,5 @@
 import EchoModel.RouterSpec
+import EchoModel.RouterInv
 import EchoProofs.Spec.Basics
 /-!
 # Soundness of the reference search
@@ -26,12 +27,6 @@ def SlashFree : List Tok → List Str → Prop
   | .param :: ts, v :: vs => (ts ≠ [] → '/' ∉ v) ∧ SlashFree ts vs
   | .any :: ts, _ :: vs => SlashFree ts vs
   | _, _ => True
-
-/-- number of markers (`:name`, `*`) of a token list -/
-def arity : List Tok → Nat
-  | [] => 0
-  | .lit _ :: ts => arity ts
-  | _ :: ts => arity ts + 1
 
 theorem inst_length {ts : List Tok} {vs : List Str} {p : Str} (h : inst ts vs = some p) :
     vs.length = arity ts := by
